@@ -104,7 +104,7 @@ class C13(Prop):
         'two_mul_G', 'der_roundtrip', 'der_strict', 'derEncode_injective', 'compareBigEndian_sign',
         'maxModHalfOrder_eq', 'isLowDer_iff_encode', 'isLowDer_iff', 'n_odd', 'lowS_spec', 'signatureToLowS_spec',
         'sign_spec', 'sign_hash_length', 'wifPayload_eq_spec', 'wif_roundtrip', 'wif_roundtrip_chains',
-        'wif_wrong_version', 'pub_eq_reference')]
+        'wif_wrong_version', 'pub_eq_reference', 'verify_sign', 'verify_lowS_twin')]
     anchors = [('bitcoin/core/key.py', 'CECKey.set_secretbytes'), ('bitcoin/core/key.py', 'CECKey.get_pubkey'),
                ('bitcoin/core/key.py', 'CECKey.set_compressed'), ('bitcoin/core/key.py', 'CECKey.sign'),
                ('bitcoin/core/key.py', 'CECKey.signature_to_low_s'), ('bitcoin/core/key.py', 'CECKey.verify'),
